@@ -208,7 +208,8 @@ def _parse_directive_options(
         yaml_errors: list[ParseWarnings] = []
         try:
             yaml_options = yaml.safe_load(options_block or "") or {}
-        except (yaml.YAMLError, ValueError):
+        except (yaml.YAMLError, ValueError, RecursionError):
+            # RecursionError: collections nested deeper than the recursion limit
             yaml_options = {}
             yaml_errors.append(
                 ParseWarnings(
